@@ -27,11 +27,13 @@ type blockOut struct {
 }
 
 type loopInfo struct {
-	header  *ssa.BasicBlock
-	ordinal int
-	blocks  map[*ssa.BasicBlock]bool
-	backs   []*ssa.BasicBlock // preds with back edge
-	headSt  *State            // state at the loop header (start of an arbitrary iteration)
+	header    *ssa.BasicBlock
+	ordinal   int
+	blocks    map[*ssa.BasicBlock]bool
+	backs     []*ssa.BasicBlock // preds with back edge
+	headSt    *State            // state at the loop header (start of an arbitrary iteration)
+	entrySt   *State            // state on arrival at the loop (before its first iteration)
+	entryPhis map[*ssa.Phi]Val
 }
 
 // cfgInfo: back edges, loop headers, topological order ignoring back edges.
@@ -134,6 +136,7 @@ func (c *Ctx) execBody(fr *Frame, st0 *State, reach0 string) []retPoint {
 		return nil
 	}
 	ci := analyzeCFG(fn)
+	fr.cfg = ci
 	outs := map[*ssa.BasicBlock]*blockOut{}
 	var rets []retPoint
 	for _, b := range ci.order {
@@ -210,6 +213,8 @@ func (c *Ctx) execBody(fr *Frame, st0 *State, reach0 string) []retPoint {
 					}
 					entryPhis[phi] = c.mergeVals(conds, vs, phi.Type(), phi.Name())
 				}
+				li.entrySt = entrySt.clone()
+				li.entryPhis = entryPhis
 				c.checkInvariants(fr, li, entrySt, reach, entryPhis, "entry", b)
 				st = c.havocLoop(fr, li, entrySt, reach)
 				for _, ins := range b.Instrs {
@@ -321,7 +326,9 @@ func (c *Ctx) mergeStates(conds []string, sts []*State) *State {
 		for k := range rk {
 			rs = append(rs, k)
 		}
-		sort.Slice(rs, func(i, j int) bool { return rs[i].Pos() < rs[j].Pos() || (rs[i].Pos() == rs[j].Pos() && rs[i].Name() < rs[j].Name()) })
+		sort.Slice(rs, func(i, j int) bool {
+			return rs[i].Pos() < rs[j].Pos() || (rs[i].Pos() == rs[j].Pos() && rs[i].Name() < rs[j].Name())
+		})
 		for _, k := range rs {
 			var vs []string
 			same, all := true, true
@@ -733,6 +740,7 @@ func smtBig(s string) string {
 func (c *Ctx) execBlock(fr *Frame, b *ssa.BasicBlock, st *State, reach string, rets *[]retPoint) *blockOut {
 	out := &blockOut{st: st, reach: reach}
 	for _, ins := range b.Instrs {
+		c.curFr = fr
 		switch x := ins.(type) {
 		case *ssa.Phi, *ssa.DebugRef:
 			continue
